@@ -402,6 +402,67 @@ def _tdms_case(args):
     return {"exports": nexp, "nontrivial": nexp}, out
 
 
+def _short_case(args):
+    """An hdf5 source whose features have unequal lengths (image shorter
+    than the scalars): the export is truncated to the shortest feature."""
+    n, short, seed, scratch = args
+    import dclab
+    gen.register_user_features()
+    out = []
+    stats = {"exports": 0, "nontrivial": 0}
+    p = scratch / f"c02_short_{n}_{os.getpid()}.rtdc"
+    outp = scratch / f"c02_short_out_{n}_{os.getpid()}.rtdc"
+    ev = gen.make_events(n, seed=seed)
+    gen.write_rtdc(p, ev)
+    with h5py.File(p, "a") as h5:
+        for feat, k in short.items():
+            h5["events"][feat].resize(k, axis=0)
+    lmin = min(short.values())
+
+    class S:
+        pass
+    src = S()
+    src.ev, src.idx, src.has_logs = ev, np.arange(n), False
+    src.logs, src.tables = {}, {}
+    feats = ["deform", "area_um"] + sorted(short)
+    masks = [np.ones(n, bool), np.arange(n) < n - 2, np.arange(n) % 2 == 0,
+             np.arange(n) >= lmin]
+    try:
+        with dclab.new_dataset(p) as ds:
+            src.ds = ds
+            for mi, m in enumerate(masks):
+                for filtered in (True, False):
+                    ds.filter.manual[:] = m
+                    ds.apply_filter()
+                    sel = np.flatnonzero(m) if filtered else np.arange(n)
+                    sel = sel[sel < lmin]
+                    case = {"kind": "hdf5-short", "n": n, "seed": seed,
+                            "mode": "short", "short": short, "mask": mi,
+                            "filtered": filtered, "feats": feats}
+                    tags = {"kind": "hdf5-short", "filtered": filtered,
+                            "empty": len(sel) == 0,
+                            "full_filter": bool(m.all())}
+                    if outp.exists():
+                        outp.unlink()
+                    try:
+                        ds.export.hdf5(outp, features=feats,
+                                       filtered=filtered)
+                        out.extend(compare_export(outp, src, sel, feats,
+                                                  filtered, case, tags))
+                    except Exception as e:
+                        out.append(violation(
+                            EX, "exception", case,
+                            f"{type(e).__name__}: {e}",
+                            dict(tags, exc=type(e).__name__)))
+                    stats["exports"] += 1
+                    stats["nontrivial"] += 1
+    finally:
+        for q in (p, outp):
+            if q.exists():
+                q.unlink()
+    return stats, out
+
+
 def run(ctx):
     scratch = ctx.scratch
     items = []
@@ -415,6 +476,10 @@ def run(ctx):
         for kind in ("hdf5", "child-hdf5"):
             items.append((kind, 23, ctx.seed, "subsets", True, scratch))
     res = par.pmap(_case, items)
+    res += par.pmap(_short_case, [
+        (12, {"image": 7}, ctx.seed, scratch),
+        (12, {"image": 9, "mask": 5}, ctx.seed, scratch),
+        (6, {"image_bg": 1}, ctx.seed, scratch)])
     names = ["fmt-tdms_fl-image_2016.zip"] + (
         [] if ctx.quick else ["fmt-tdms_minimal_2016.zip"])
     res += par.pmap(_tdms_case, [(nm, scratch) for nm in names])
@@ -444,6 +509,11 @@ def replay(case, ctx):
     if case.get("mode") == "tdms":
         _, vs = _tdms_case((case["name"], ctx.scratch))
         return vs
+    if case.get("mode") == "short":
+        _, vs = _short_case((case["n"], case["short"], case["seed"],
+                             ctx.scratch))
+        return [v for v in vs if v["case"]["mask"] == case["mask"]
+                and v["case"]["filtered"] == case["filtered"]]
     if case.get("mode") == "tsv":
         _, vs = _case((case["kind"], case["n"], case["seed"], "tsv", True,
                        ctx.scratch))
